@@ -93,6 +93,12 @@ func parseReplayOps(s string) ([]replayOp, bool) {
 			ops = append(ops, op)
 		case f[0] == "G" && len(f) == 1:
 			ops = append(ops, replayOp{kind: 'G'})
+		case f[0] == "I" && len(f) == 2:
+			d, err := strconv.ParseInt(f[1], 10, 64)
+			if err != nil {
+				return nil, false
+			}
+			ops = append(ops, replayOp{kind: 'I', delta: d})
 		case f[0] == "T" && len(f) == 2:
 			d, err := strconv.ParseInt(f[1], 10, 64)
 			if err != nil {
@@ -290,6 +296,11 @@ func runHistory(r *replayerUnderTest, ops []replayOp, slotReport bool, fl *final
 				r.clock += op.delta
 			}
 			out = "T"
+		case 'I':
+			if r.valid != nil {
+				r.valid.GCInterval = time.Duration(op.delta)
+			}
+			out = "I"
 		}
 		if slotReport {
 			known, unknown, head, tail, count, n := slotTags(r, tags)
